@@ -260,6 +260,49 @@ def extra_checks(rng, tier, g, info):
                                    "%s address differs from the full wallet's: %s vs %s" % (kind, y, x))
                             return
     info["constructor_route_addresses"] = n
+    # the account keys of a wallet stored BACK TO BACK as 78-byte records (behind a header) in one stream and read one
+    # after the other with PubKeyNode.parse(stream): each watch-only wallet is the wallet of ITS record
+    import io
+    import btc_hd_wallet.bip32 as bip32_
+    m = 0
+    for _ in range(2 if tier == "quick" else 30):
+        e = bytes(rng.getrandbits(8) for _ in range(16)).hex()
+        wt = rng.choice("01")
+        full = impl.make_wallet("ent:%s:-:-:%s" % (sx(e), wt))
+        coin = 1 if wt == "1" else 0
+        accs = [full.by_path("m/%d'/%d'/%d'" % (pu, coin, rng.choice([0, 1]))) for pu in (44, 49, 84)]
+        header = bytes(rng.getrandbits(8) for _ in range(rng.choice([0, 3, 78])))
+        buf = io.BytesIO(header + b"".join(a.serialize_public() for a in accs))
+        buf.read(len(header))
+        for rec, acc in enumerate(accs):
+            try:
+                node = bip32_.PubKeyNode.parse(buf, testnet=(wt == "1"))
+            except Exception:
+                break               # a refusal hands out nothing
+            wo = type(full)(master=node, testnet=(wt == "1"))
+            for sub in ([], [0, rng.randrange(20)], [1, 2 ** 31 - 1]):
+                a = acc.derive_path(sub)
+                m += 1
+                what = None
+                try:
+                    b = wo.master.derive_path(sub)
+                    if a.public_key.sec() != b.public_key.sec() or a.chain_code != b.chain_code:
+                        what = "public key / chain code"
+                    elif (a.depth, a.index, a.parent_fingerprint) != (b.depth, b.index, b.parent_fingerprint):
+                        what = "depth / child number / parent fingerprint"
+                    else:
+                        for kind in KINDS:
+                            if impl.addr_fn(full, kind)(a) != impl.addr_fn(wo, kind)(b):
+                                what = kind + " address"
+                except Exception as ex:     # the record was accepted, yet the wallet built from it cannot answer
+                    what = "public data (the request fails with %s: the accepted node is not the record's node)" % type(ex).__name__
+                if what:
+                    yield ("# watch-only wallet from record %d of a stream of %d-byte header + three 78-byte account keys "
+                           "(entropy %s, testnet=%s), read with PubKeyNode.parse(stream); sub-path %s" % (
+                               rec, len(header), e, wt == "1", sub),
+                           "%s differs from the full wallet's below that account" % what)
+                    return
+    info["stream_record_comparisons"] = m
 
 
 known_match = common.no_known
